@@ -66,8 +66,8 @@ theorem netaddr_roundtrip_defaults {α : Type} (L : IPLib α) (laws : IPLaws L) 
 
 /-- with any `default_func`, printing a valid `Service` and parsing it back gives an equal object -/
 theorem service_roundtrip_defaults {α : Type} (L : IPLib α) (laws : IPLaws L) (cfg : Cfg)
-    (ok : CfgOK cfg) (g : SvcDefaults α) (s : Service α) (hv : s.Valid) :
-    Service.fromStringD L cfg g (.str (s.toStr L)) = .ok s := by
+    (ok : CfgOK cfg) (low : PyLower) (g : SvcDefaults α) (s : Service α) (hv : s.Valid) :
+    Service.fromStringD L cfg low g (.str (s.toStr L)) = .ok s := by
   obtain ⟨proto, addr⟩ := s
   obtain ⟨h1, h2, h3⟩ := hv
   simp only at h1 h2 h3
